@@ -172,6 +172,12 @@ def run_history(ns, rec, hist):
     except Exception as ex:
         rec.violation("write-raises", "valid write history raised %r" % ex, {"history": hist})
         return
+    # the output is taken twice; the caller encrypts the first copy in place (what the packet pipeline does with it)
+    first = w.to_bytearray()
+    for i in range(len(first)):
+        first[i] ^= 0x5A
+    first.extend(b"\x00\x01")
+    rec.count("outputs-taken-twice")
     out = bytes(w.to_bytearray())
     if early is not None:
         snap, was, r0, n0 = early
